@@ -1453,6 +1453,27 @@ func (a *boundsAn) proveBySplit(e lin, at *ssa.BasicBlock, atIns ssa.Instruction
 				continue
 			}
 			nEdges++
+			// a back edge of a loop whose header carries the phi (rotated loops: header == body): the
+			// incoming values and the edge condition speak about the previous iteration. The step is
+			// sound if the goal mentions, of the loop's own values, only the header phis, and only
+			// loop-invariant facts are used next to the edge condition.
+			back := M == pred || M.Dominates(pred)
+			if back {
+				onlyPhis := true
+				for s2 := range e.t {
+					if v, ok := s2.v.(ssa.Value); ok {
+						if ins, ok := v.(ssa.Instruction); ok && ins.Block() != nil && (ins.Block() == M || M.Dominates(ins.Block())) {
+							if p2, isPhi := v.(*ssa.Phi); !isPhi || p2.Block() != M {
+								onlyPhis = false
+							}
+						}
+					}
+				}
+				if !onlyPhis {
+					allOK = false
+					break
+				}
+			}
 			subst := func(f lin) (lin, bool) {
 				out := linConst(f.c)
 				for s2, k := range f.t {
@@ -1466,7 +1487,7 @@ func (a *boundsAn) proveBySplit(e lin, at *ssa.BasicBlock, atIns ssa.Instruction
 								} else {
 									ef = a.formOf(gp.Edges[i])
 								}
-								if stale(ef) {
+								if stale(ef) && !back {
 									return lin{}, false
 								}
 								repl = ef
@@ -1483,19 +1504,36 @@ func (a *boundsAn) proveBySplit(e lin, at *ssa.BasicBlock, atIns ssa.Instruction
 				break
 			}
 			F := factSet{}
-			for _, f := range a.edgeFacts(pred, M, pin) {
-				if !stale(f) {
+			if back {
+				// the edge condition (previous iteration) and loop-invariant facts only
+				for _, f := range a.edgeFacts(pred, M, factSet{}) {
 					F.addGE(f)
 				}
-			}
-			for _, f := range facts {
-				if f2, ok := subst(f); ok {
-					F.addGE(f2)
+				for _, f := range facts {
+					if !stale(f) {
+						F.addGE(f)
+					}
 				}
-			}
-			for _, f := range a.defsAt(atIns) {
-				if f2, ok := subst(f); ok {
-					F.addGE(f2)
+				for _, f := range a.defsAt(atIns) {
+					if !stale(f) {
+						F.addGE(f)
+					}
+				}
+			} else {
+				for _, f := range a.edgeFacts(pred, M, pin) {
+					if !stale(f) {
+						F.addGE(f)
+					}
+				}
+				for _, f := range facts {
+					if f2, ok := subst(f); ok {
+						F.addGE(f2)
+					}
+				}
+				for _, f := range a.defsAt(atIns) {
+					if f2, ok := subst(f); ok {
+						F.addGE(f2)
+					}
 				}
 			}
 			if !proveGE(e2, F) {
